@@ -58,25 +58,33 @@ class StageFilter:
 
 
 class CrashTracer:
-    """Counts line events in stage frames; raises `exc` at the k-th one (k=None: count only)."""
+    """Counts line events and call events in stage frames; raises `exc` at the k-th line event (on="line") or on entry
+    to the k-th stage call (on="call"). k=None: count only."""
 
-    def __init__(self, stage_filter, k=None, exc=InjectedFault):
+    def __init__(self, stage_filter, k=None, exc=InjectedFault, on="line"):
         self.sf = stage_filter
         self.k = k
+        self.on = on
         self.exc = exc
-        self.n = 0
+        self.n = 0            # line events
+        self.calls = 0        # call events
         self.fired = False
         self.where = None
 
     def __call__(self, frame, event, arg):  # global trace: 'call' events
         if self.sf.is_stage(frame.f_code):
+            self.calls += 1
+            if self.on == "call" and self.k is not None and self.calls == self.k and not self.fired:
+                self.fired = True
+                self.where = (os.path.basename(frame.f_code.co_filename), frame.f_code.co_firstlineno)
+                raise self.exc("injected on entry to stage call %d (%s)" % (self.k, frame.f_code.co_name))
             return self.local
         return None
 
     def local(self, frame, event, arg):
         if event == "line":
             self.n += 1
-            if self.k is not None and self.n == self.k and not self.fired:
+            if self.on == "line" and self.k is not None and self.n == self.k and not self.fired:
                 self.fired = True
                 self.where = (os.path.basename(frame.f_code.co_filename), frame.f_lineno)
                 raise self.exc("injected at stage line event %d" % self.k)
@@ -102,6 +110,10 @@ def gen_scenario(rng, index, faults_enabled):
         progs.append(gen.variant_of(rng, rng.choice(progs[:n_base]), f"r{index}t{len(progs)}"))
     if rng.random() < 0.35:
         progs.append(gen.near_variant_of(rng, rng.choice(progs), f"r{index}t{len(progs)}"))
+    if rng.random() < 0.2:
+        pair = gen.comment_lookalike_pair(rng, rng.choice(progs), f"r{index}t{len(progs)}", f"r{index}t{len(progs) + 1}")
+        if pair:
+            progs.extend(pair)
     n_valid_intended = len(progs)
     for j in range(rng.choice([1, 2, 3, 4])):
         progs.append(gen.gen_invalid(rng, rng.choice(progs[:n_valid_intended]), f"r{index}t{len(progs)}"))
@@ -139,6 +151,8 @@ def gen_scenario(rng, index, faults_enabled):
                 f = {"kind": fk}
                 if fk == "crash":
                     f["u"] = rng.random()
+                    # where: uniform over line events / over stage calls, or shortly before the end of the compile
+                    f["mode"] = rng.choice(["line", "line", "call", "late_line", "late_call", "late_call"])
                     f["exc"] = rng.choice(["InjectedFault", "InjectedFault", "MemoryError", "RecursionError", "OSError"])
                 elif fk in ("stdout", "stderr"):
                     f["errno"] = rng.choice(["EPIPE", "ENOSPC", "EIO"])
@@ -223,7 +237,7 @@ class Runner:
                 pass
         finally:
             sys.settrace(None)
-        return tr.n
+        return (tr.n, tr.calls)
 
     # -- one scenario --------------------------------------------------------
     def run(self, sc):
@@ -345,11 +359,17 @@ class Runner:
                 if ti not in stage_counts:
                     stage_counts[ti] = self.count_stage_events(t["text"])
                     self.out.take(), self.err.take()
-                total = stage_counts[ti]
+                n_lines, n_calls = stage_counts[ti]
+                mode = fault.get("mode", "line")
+                on = "call" if mode.endswith("call") else "line"
+                total = n_calls if on == "call" else n_lines
                 if total > 0:
-                    k = 1 + int(fault["u"] * total)
-                    tracer = CrashTracer(self.sf, k=k, exc=FAULT_EXC[fault["exc"]])
-                    rec["k"] = k
+                    if mode.startswith("late"):
+                        k = max(1, total - int(fault["u"] * min(total, 12 if on == "call" else 40)))
+                    else:
+                        k = 1 + int(fault["u"] * total)
+                    tracer = CrashTracer(self.sf, k=k, exc=FAULT_EXC[fault["exc"]], on=on)
+                    rec["k"] = [mode, k]
             elif fk == "stdout":
                 self.out.fail_errno = getattr(errno, fault["errno"])
             elif fk == "stderr":
@@ -383,6 +403,7 @@ class Runner:
         if tracer and tracer.fired:
             fired = True
             self.bump("fault.crash." + fault["exc"])
+            self.bump("fault.crash_mode." + fault.get("mode", "line"))
             info["crash_sites"].add(tracer.where)
         if fault and fault["kind"] in ("stdout", "stderr") and (self.out.fired or self.err.fired):
             fired = True
